@@ -49,6 +49,7 @@ BaseStr == <<
   <<104,116,116,112,58,47,47,104,47,112,47,113,63,113,35,102>>,            \* http://h/p/q?q#f
   <<102,105,108,101,58,47,47,47,67,58,47,100,47,102>>,                      \* file:///C:/d/f
   <<120,58,47,47,117,58,112,64,104,58,57,47,112,47,113>>,                   \* x://u:p@h:9/p/q
+  <<102,105,108,101,58,47,47,47,67,58>>,                                     \* file:///C:   (the whole path is one drive letter)
   <<120,58,111,112,97,113,117,101,63,113>>,                                  \* x:opaque?q
   <<102,105,108,101,58,47,47,104,47,115,47,120>>,                           \* file://h/s/x
   <<120,58,47,112,47,113>>,                                                  \* x:/p/q
